@@ -1,6 +1,7 @@
 package main
 
 import (
+	"go/ast"
 	"fmt"
 	"go/token"
 	"go/types"
@@ -123,9 +124,118 @@ func (p *Program) structObligations() *FuncResult {
 	// InitGenesis writes one record per map entry under pairwise distinct keys (order-independent; stated assumption)
 	add("map_ranges_do_not_write_state", mapWrites, map[string]bool{"service.InitGenesis": true},
 		fmt.Sprintf("%d map ranges; a loop in a function that ranges over a map calls nothing that writes module state (InitGenesis excepted: distinct keys)", nMapRanges))
+	// routing (C05, C17): the message switch hands every message type to the handler named after it, with (ctx, k, msg); the
+	// legacy query switch hands every query path to the query function named after it. Read from the syntax on every run.
+	if bad, n := p.routingProblems(); true {
+		goal := tTrue
+		src := fmt.Sprintf("%d switch cases: case *types.MsgX returns handleMsgX(ctx, k, msg); case types.QueryX returns queryX(...)", n)
+		if len(bad) > 0 || n == 0 {
+			goal = tFalse
+			src += " -- found: " + strings.Join(bad, "; ")
+		}
+		ex.obls = append(ex.obls, &Obl{Name: "service#struct:every_message_and_query_is_routed_to_its_own_handler", Kind: "struct", Goal: goal, Props: []string{"C05", "C17", "C20"}, Src: src})
+	}
 	if len(ex.obls) > 0 {
 		ex.trusted["InitGenesis iterates over genesis maps: order-independent because the written keys are pairwise distinct (true for exported genesis)"] = true
 	}
 	res.Obls = ex.obls
 	return res
+}
+
+
+// routingProblems inspects NewHandler's type switch and NewQuerier's path switch.
+func (p *Program) routingProblems() (bad []string, n int) {
+	queryAlias := map[string]string{"QueryDefinition": "queryServiceDefinition", "QueryParameters": "queryParams"}
+	for _, pk := range p.pkgs {
+		for _, f := range pk.Syntax {
+			ast.Inspect(f, func(m ast.Node) bool {
+				fd, ok := m.(*ast.FuncDecl)
+				if !ok || (fd.Name.Name != "NewHandler" && fd.Name.Name != "NewQuerier") || fd.Body == nil {
+					return true
+				}
+				ast.Inspect(fd.Body, func(x ast.Node) bool {
+					switch sw := x.(type) {
+					case *ast.TypeSwitchStmt:
+						if fd.Name.Name != "NewHandler" {
+							return true
+						}
+						for _, st := range sw.Body.List {
+							cc, ok := st.(*ast.CaseClause)
+							if !ok || len(cc.List) == 0 {
+								continue // default
+							}
+							n++
+							tn := ""
+							if se, ok := cc.List[0].(*ast.StarExpr); ok {
+								if sel, ok := se.X.(*ast.SelectorExpr); ok {
+									tn = sel.Sel.Name
+								}
+							}
+							callee, args := returnedCall(cc.Body)
+							want := "handle" + tn
+							if tn == "" || len(cc.List) != 1 || callee != want || len(args) != 3 || args[0] != "ctx" || args[1] != "k" || args[2] != "msg" {
+								bad = append(bad, fmt.Sprintf("case %s -> %s(%s)", tn, callee, strings.Join(args, ",")))
+							}
+						}
+						return false
+					case *ast.SwitchStmt:
+						if fd.Name.Name != "NewQuerier" {
+							return true
+						}
+						for _, st := range sw.Body.List {
+							cc, ok := st.(*ast.CaseClause)
+							if !ok || len(cc.List) == 0 {
+								continue
+							}
+							n++
+							qn := ""
+							if sel, ok := cc.List[0].(*ast.SelectorExpr); ok {
+								qn = sel.Sel.Name
+							}
+							callee, _ := returnedCall(cc.Body)
+							want := "q" + strings.TrimPrefix(qn, "Q")
+							if a, ok := queryAlias[qn]; ok {
+								want = a
+							}
+							if qn == "" || len(cc.List) != 1 || callee != want {
+								bad = append(bad, fmt.Sprintf("case %s -> %s", qn, callee))
+							}
+						}
+						return false
+					}
+					return true
+				})
+				return false
+			})
+		}
+	}
+	return bad, n
+}
+
+// returnedCall: the body of a case clause must be a single "return f(a, b, ...)"; gives f and the argument identifiers.
+func returnedCall(body []ast.Stmt) (string, []string) {
+	if len(body) != 1 {
+		return "<not a single return>", nil
+	}
+	rs, ok := body[0].(*ast.ReturnStmt)
+	if !ok || len(rs.Results) != 1 {
+		return "<not a single return>", nil
+	}
+	call, ok := rs.Results[0].(*ast.CallExpr)
+	if !ok {
+		return "<not a call>", nil
+	}
+	name := "<expr>"
+	if id, ok := call.Fun.(*ast.Ident); ok {
+		name = id.Name
+	}
+	var args []string
+	for _, a := range call.Args {
+		if id, ok := a.(*ast.Ident); ok {
+			args = append(args, id.Name)
+		} else {
+			args = append(args, "<expr>")
+		}
+	}
+	return name, args
 }
